@@ -7,7 +7,11 @@ tie:   Gen_Auth.v regenerated from the source (compiled patterns, handler litera
        driver.open()) against a causal login-server simulator under many chunkings, and on open-loop
        event scripts (empty reads with clock readings, poll expiries, connection errors); the model is
        evaluated by vm_compute on the same inputs and must reproduce the interleaved read/write history
-       and the outcome class.  Independent oracles on the server's log and on the history."""
+       and the outcome class.  Independent oracles on the server's log and on the history.
+       Whole open() of the four drivers over every combination of configured / empty user name, password and
+       key passphrase (oracle: a prompt state only receives ITS credential or an empty line), and histories
+       of several logins on ONE channel / driver object (each login judged on its own; model: the history
+       fold hist_cl with the counter scope gen_auth reads from the source)."""
 import json
 import os
 
@@ -37,7 +41,9 @@ Inductive case :=
 | CaseA (kind pid : N) (u p k : bytes) (interval : N) (segs : list bytes) (sched : list (nat * N)) (code : N) (hist : list bytes)
 | CaseB (kind pid : N) (u p k : bytes) (interval : N) (evs : list ev) (code : N) (hist : list bytes)
 | CaseD (kind pid : N) (segs : list (bytes * N)) (want : bool)
-| CaseF (b : bytes) (want : bool).
+| CaseF (b : bytes) (want : bool)
+| CaseH (kind pid : N) (u p k : bytes) (interval : N)
+        (logins : list (list bytes * list (nat * N) * N * list bytes)).
 Definition exp_of (n : N) : expect :=
   if n =? 1 then XCred CUser else if n =? 2 then XCred CPass else if n =? 3 then XCred CPhrase
   else if n =? 4 then XShell else XFatal.
@@ -56,6 +62,14 @@ Definition chk (c : case) : bool :=
       Bool.eqb (dlg_okb cf (map (fun s => mkPhase [] (fst s) (exp_of (snd s))) segs)) want
   | CaseF b want =>
       Bool.eqb (c_fatal (gen_cfg Ssh gen_re_prompt_channel [117] [112] [107] 3000) b) want
+  | CaseH kind pid u p k iv logins =>
+      (* several logins on ONE object: the history fold with the counter scope read from the source *)
+      let cf := gen_cfg (kind_of kind) (prompt_of pid) u p k iv in
+      let rs := hist_cl gen_counter_scope cf zero
+                  (map (fun l => (map (fun s => mkPhase [] s XShell) (fst (fst (fst l))), snd (fst (fst l)))) logins) in
+      Nat.eqb (length rs) (length logins) &&
+      forallb (fun lr => (cl_code (snd (snd lr)) =? snd (fst (fst lr))) && lbeq (history cf (fst (snd lr))) (snd (fst lr)))
+              (combine logins rs)
   end.
 """
 
@@ -226,6 +240,23 @@ def case_a(kind, pid, creds, interval_ms, res):
         coq_list(sched), CLASS_CODE.get(res["outcome"], 99), hist_term(res["hist"]))
 
 
+def case_h(kind, pid, creds, interval_ms, results):
+    logins = []
+    for res in results:
+        segs = [tx.replace(b"\r", b"") for _, tx in res["segments"]]
+        sched = []
+        for k, raw, t in res["reads"]:
+            if k == "data":
+                sched.append("(%d%%nat, %d)" % (len(raw.replace(b"\r", b"")), t))
+            elif k == "empty":
+                sched.append("(0%%nat, %d)" % t)
+            elif k == "blocked":
+                sched.append("(1%%nat, %d)" % t)
+        logins.append("(%s, %s, %d, %s)" % (coq_list([coq_bytes(x) for x in segs]), coq_list(sched),
+                                            CLASS_CODE.get(res["outcome"], 99), hist_term(res["hist"])))
+    return "(CaseH %d %d %s %d %s)" % (0 if kind == "telnet" else 1, pid, creds_term(creds), interval_ms, coq_list(logins))
+
+
 def case_b(kind, pid, creds, interval_ms, res, stack, eof="raise"):
     evs = []
     for k, raw, t in res["reads"]:
@@ -393,6 +424,37 @@ def judge_login(S, kind, spec, creds, res, pc, interval_ms, timeout_ops_ms, eof=
     return general, fails, region, hz
 
 
+def judge_open(S, kind, spec, creds, res, pc):
+    """whole-open scenarios with ANY configuration of the three credentials (empty ones included; the history oracles
+    of judge_login cannot tell an empty credential from a bare return).  -> same tuple as judge_login.
+    general: the device-side oracle "a prompt state only ever receives ITS credential or an empty line"; region
+    failures: outcome and server log against what a correct client obtains with the same configuration"""
+    want_out, want_log, ideal_segs, why = S.ideal(spec, creds, kind == "ssh")
+    hz = S.hazard_on_ideal(pc, ideal_segs, S.cut_offsets(res))
+    region = "inside"
+    if hz is not None:
+        region = "lookalike-line" if not hz["midline"] else ("partial-line-shell" if hz["reaction"] == "shell" else "partial-line")
+    elif not S.accepted(pc, ideal_segs):
+        region = "unaccepted-spelling"
+    elif why in ("dead", "closed"):
+        region = "no-third-prompt" if len(want_log) >= 2 else "silent"
+    elif res.get("cut_short"):
+        region = "cut-short"
+    own = S.own_prompt_oracle(res, creds)
+    general, fails = [], []
+    if region in ("partial-line", "partial-line-shell", "lookalike-line"):
+        fails += own
+    else:
+        general += own
+    if region in ("inside", "partial-line", "partial-line-shell"):
+        got_log = [(s, l) for s, l, _ in res["log"]]
+        if res["outcome"] != want_out:
+            fails.append("outcome %s, wanted %s (%s)" % (res["outcome"], want_out, why))
+        if got_log != want_log:
+            fails.append("server log %r, wanted %r" % (got_log, want_log))
+    return general, fails, region, hz
+
+
 # ------------------------------------------------------------------------------------------------
 # suites
 # ------------------------------------------------------------------------------------------------
@@ -426,7 +488,7 @@ class Ctx:
         self.meta.append(meta)
 
     def count(self, table, key):
-        d = self.dist[table]
+        d = self.dist.setdefault(table, {})
         d[key] = d.get(key, 0) + 1
 
 
@@ -437,8 +499,40 @@ def interval_of(S, timeout_ops):
     return int(round(ch._pre_channel_authenticate_telnet()[4] * 1000))
 
 
+def report_login(cx, kind, stack, region, general, fails, scen, res, hz, label="login"):
+    """oracle failures of one login -> violation (under a listed finding's signature where its region explains them);
+    returns the failures that count"""
+    rep = cx.rep
+    if not (general or fails):
+        return fails
+    sig = None
+    if not general:
+        # only the device-side / outcome failures that a listed finding's region explains carry its signature
+        if region == "partial-line":
+            sig = SIG_PARTIAL
+        elif region == "partial-line-shell":
+            sig = SIG_PARTIAL_SHELL
+        elif region == "no-third-prompt":
+            sig = SIG_NO_THIRD
+        elif region == "lookalike-line":
+            cx.count("by_region", "lookalike-line-deviation")
+            return fails
+    scen2 = dict(scen)
+    scen2.update({"observed": {"outcome": res["outcome"], "log": [[s, l.hex()] for s, l, _ in res["log"]],
+                               "writes": [w.hex() for w in res["writes"]]},
+                  "failures": general + fails, "region": region,
+                  "hazard": None if hz is None else {k: (v.hex() if isinstance(v, bytes) else v) for k, v in hz.items()},
+                  "rerun": "./check C09 --replay <this file>"})
+    if sig is not None or cx.violations < 12:
+        if rep.violation("%s/%s %s (%s): %s" % (kind, stack, label, region, "; ".join(general + fails)[:400]), scen2, signature=sig):
+            cx.violations += 1
+    else:
+        cx.violations += 1
+    return general + fails
+
+
 def one_login(cx, suite, stack, kind, style, spec, pol, creds, timeout_ops=30.0, eof="raise", via_driver=None,
-              max_reads=5000):
+              max_reads=5000, judge="login"):
     S, rep = cx.S, cx.rep
     interval_ms = cx.intervals.setdefault(timeout_ops, interval_of(S, timeout_ops))
     if via_driver:
@@ -447,10 +541,13 @@ def one_login(cx, suite, stack, kind, style, spec, pol, creds, timeout_ops=30.0,
         res = S.run_login(stack, kind, spec, pol, creds, prompt=cx.prompt_text[style], timeout_ops=timeout_ops, eof=eof,
                           max_reads=max_reads)
     pc = cx.pycfg(kind, style)
-    general, fails, region, hz = judge_login(S, kind, spec, creds, res, pc, interval_ms, int(timeout_ops * 1000), eof, pol.get("idle"))
+    if judge == "open":
+        general, fails, region, hz = judge_open(S, kind, spec, creds, res, pc)
+    else:
+        general, fails, region, hz = judge_login(S, kind, spec, creds, res, pc, interval_ms, int(timeout_ops * 1000), eof, pol.get("idle"))
     scen = {"suite": suite, "stack": stack, "kind": kind, "style": style, "spec": spec_json(spec), "policy": pol,
             "creds": {k: v.hex() for k, v in creds.items()}, "timeout_ops": timeout_ops, "eof": eof,
-            "via_driver": via_driver, "max_reads": max_reads}
+            "via_driver": via_driver, "max_reads": max_reads, "judge": judge}
     cx.dist["runs"] += 1
     cx.count("by_suite", suite)
     cx.count("by_region", region)
@@ -459,7 +556,8 @@ def one_login(cx, suite, stack, kind, style, spec, pol, creds, timeout_ops=30.0,
     cx.count("by_kind_stack", kind + "/" + stack + ("/driver" if via_driver else ""))
     nr = len(res["reads"])
     cx.count("reads_hist", "1-5" if nr <= 5 else "6-20" if nr <= 20 else "21-100" if nr <= 100 else ">100")
-    rep.case((suite, kind, style, json.dumps(scen["spec"], sort_keys=True), json.dumps(pol, sort_keys=True), creds["pass"]),
+    rep.case((suite, kind, style, json.dumps(scen["spec"], sort_keys=True), json.dumps(pol, sort_keys=True), creds["pass"],
+              creds["user"], creds["phrase"], via_driver),
              nontrivial=len(res["writes"]) > 0 and nr > 1)
     pid = PROMPT_IDS[style]
     if closed_loop_eligible(res, interval_ms):
@@ -469,31 +567,7 @@ def one_login(cx, suite, stack, kind, style, spec, pol, creds, timeout_ops=30.0,
         term = case_b(kind, pid, creds, interval_ms, res, stack, eof)
         cx.count("by_model", "open-loop (run_raw)")
     cx.add_term(term, scen)
-    if general or fails:
-        sig = None
-        if not general:
-            # only the device-side / outcome failures that a listed finding's region explains carry its signature
-            if region == "partial-line":
-                sig = SIG_PARTIAL
-            elif region == "partial-line-shell":
-                sig = SIG_PARTIAL_SHELL
-            elif region == "no-third-prompt":
-                sig = SIG_NO_THIRD
-            elif region == "lookalike-line":
-                cx.count("by_region", "lookalike-line-deviation")
-                return res, fails, region
-        scen2 = dict(scen)
-        scen2.update({"observed": {"outcome": res["outcome"], "log": [[s, l.hex()] for s, l, _ in res["log"]],
-                                   "writes": [w.hex() for w in res["writes"]]},
-                      "failures": general + fails, "region": region,
-                      "hazard": None if hz is None else {k: (v.hex() if isinstance(v, bytes) else v) for k, v in hz.items()},
-                      "rerun": "./check C09 --replay <this file>"})
-        if sig is not None or cx.violations < 12:
-            if rep.violation("%s/%s login (%s): %s" % (kind, stack, region, "; ".join(general + fails)[:400]), scen2, signature=sig):
-                cx.violations += 1
-        else:
-            cx.violations += 1
-        fails = general + fails
+    fails = report_login(cx, kind, stack, region, general, fails, scen, res, hz)
     return res, fails, region
 
 
@@ -627,6 +701,136 @@ def driver_suite(cx, n):
                 if kind == "ssh" and stack == "async":
                     continue    # there is no asyncio transport that logs in over the channel
                 one_login(cx, "driver", stack, kind, style, spec, pol, creds, via_driver=drv)
+
+
+def open_specs(rng, kind):
+    """server dialogues that ask for each of the credentials, whatever the user has configured"""
+    out = []
+    if kind == "telnet":
+        for opt in ({}, {"no_user_prompt": True}):
+            sp = gen_spec(rng, "telnet", "driver", valid=True)
+            sp.update(opt)
+            out.append(sp)
+    else:
+        for opt in ({"phrase_prompt": None},
+                    {"phrase_prompt": rng.choice(PHRASE_PROMPTS), "empty_skips_key": True, "phrase_tries": 3},
+                    {"phrase_prompt": rng.choice(PHRASE_PROMPTS), "empty_skips_key": False, "phrase_tries": rng.choice([1, 2, 3])}):
+            sp = gen_spec(rng, "ssh", "driver", valid=True)
+            sp.update(opt)
+            out.append(sp)
+    return out
+
+
+def open_suite(cx, n_random):
+    """whole open() of Driver / GenericDriver / AsyncDriver / AsyncGenericDriver (telnet; system-style in-channel ssh where
+    the stack has it, else the AsyncChannel login called as the driver calls it) over EVERY combination of configured / empty
+    user name, password and key passphrase x server dialogues that ask for each of them, including what the user did not
+    configure.  Oracle: a prompt state only ever receives ITS credential or an empty line (judge_open)."""
+    rng = cx.rep.rng
+    combos = [(u, p, k) for u in (1, 0) for p in (1, 0) for k in (1, 0)]
+    for kind in ("telnet", "ssh"):
+        specs = open_specs(rng, kind)
+        for spec in specs:
+            total = sum(len(tx) for _, tx in cx.S.ideal(spec, CREDS, kind == "ssh")[2])
+            for ci, (u, p, k) in enumerate(combos):
+                creds = {"user": CREDS["user"] if u else b"", "pass": CREDS["pass"] if p else b"",
+                         "phrase": CREDS["phrase"] if k else b""}
+                pols = [{"type": "whole"}] + [rng.choice(policies(rng, total, 2, 2, bytewise=True)[1:]) for _ in range(n_random)]
+                for pol in pols:
+                    for stack in ("sync", "async"):
+                        drv = "base" if (ci + (stack == "sync")) % 2 else "generic"
+                        if kind == "ssh" and stack == "async":
+                            # no asyncio transport logs in over the channel: the AsyncChannel login with what a driver hands it
+                            one_login(cx, "open", stack, kind, "driver", spec, pol, creds, judge="open")
+                        else:
+                            one_login(cx, "open", stack, kind, "generic" if drv == "generic" else "driver", spec, pol, creds,
+                                      via_driver=drv, judge="open")
+    cx.rep.sample({"open_scenario": "Driver.open(), system-style ssh, password configured, passphrase empty, server shows a passphrase prompt",
+                   "oracle": "each prompt state only receives its own credential or an empty line"})
+
+
+HIST_COMBOS = [("telnet", "sync", "channel"), ("telnet", "sync", "driver"), ("telnet", "async", "channel"),
+               ("telnet", "async", "driver"), ("ssh", "sync", "channel"), ("ssh", "sync", "driver"), ("ssh", "async", "channel")]
+
+
+def gen_history(rng, kind, style, shape, valid=True):
+    """sessions of one history: shape = list of 0/1 (1: the device re-prompts once in that login)"""
+    sessions = []
+    for reprompt in shape:
+        sp = gen_spec(rng, kind, style, valid=True)
+        if kind == "ssh" and reprompt:
+            sp["phrase_prompt"] = sp["phrase_prompt"] or rng.choice(PHRASE_PROMPTS)
+            sp["phrase_tries"] = 3
+        if reprompt:
+            sp["reject_first"] = 1
+        total = sum(len(tx) for _, tx in ideal_of(sp, kind))
+        pol = rng.choice([{"type": "whole"}, {"type": "bytes", "n": rng.choice([1, 2, 5, 16])},
+                          {"type": "cuts", "at": sorted(rng.sample(range(1, max(3, total)), 2))}])
+        sessions.append((sp, pol))
+    return sessions
+
+
+def ideal_of(sp, kind):
+    from . import c09_sim as S
+    return S.ideal(sp, CREDS, kind == "ssh")[2]
+
+
+def one_history(cx, suite, stack, kind, level, style, sessions, creds, driver="base", timeout_ops=30.0):
+    """several logins on ONE channel / driver object; every login is judged as a login of its own (judge_login against what a
+    correct client obtains from THAT session): whatever the earlier logins on the object did must not matter"""
+    S, rep = cx.S, cx.rep
+    interval_ms = cx.intervals.setdefault(timeout_ops, interval_of(S, timeout_ops))
+    results = S.run_history(stack, kind, sessions, creds, level=level, driver=driver, prompt=cx.prompt_text[style], timeout_ops=timeout_ops)
+    pc = cx.pycfg(kind, style)
+    base = {"suite": suite, "stack": stack, "kind": kind, "style": style, "level": level, "driver": driver,
+            "sessions": [{"spec": spec_json(sp), "policy": pol} for sp, pol in sessions],
+            "creds": {k: v.hex() for k, v in creds.items()}, "timeout_ops": timeout_ops}
+    all_fails = []
+    for i, ((spec, pol), res) in enumerate(zip(sessions, results)):
+        general, fails, region, hz = judge_login(S, kind, spec, creds, res, pc, interval_ms, int(timeout_ops * 1000), "raise", None)
+        cx.dist["runs"] += 1
+        cx.count("by_suite", suite)
+        cx.count("by_region", region)
+        cx.count("by_outcome", res["outcome"])
+        cx.count("by_kind_stack", "%s/%s/history-%s" % (kind, stack, level))
+        cx.count("history_login_index", str(i + 1))
+        rep.case((suite, kind, style, stack, level, i, json.dumps(base["sessions"][:i + 1], sort_keys=True), creds["pass"]),
+                 nontrivial=len(res["writes"]) > 0 and i > 0)
+        scen = dict(base)
+        scen["login_index"] = i
+        got = report_login(cx, kind, stack, region, general, fails, scen, res, hz,
+                           label="login #%d of %d on one %s object" % (i + 1, len(sessions), level))
+        all_fails.append(got)
+    pid = PROMPT_IDS[style]
+    if all(closed_loop_eligible(r, interval_ms) for r in results):
+        cx.add_term(case_h(kind, pid, creds, interval_ms, results), base)
+        cx.count("by_model", "history (hist_cl)")
+    else:
+        for res in results:
+            cx.add_term(case_b(kind, pid, creds, interval_ms, res, stack, "raise"), base)
+            cx.count("by_model", "open-loop (run_raw)")
+    return results, all_fails
+
+
+def history_suite(cx, n_random, max_len):
+    """open, close, open ... on ONE object with valid credentials: three plain logins, a login with one re-prompt followed by
+    plain ones, random shapes; sync and asyncio, telnet and ssh, the channel's login method and driver.open()/close()"""
+    rng = cx.rep.rng
+    for kind, stack, level in HIST_COMBOS:
+        shapes = [[0, 0, 0], [1, 0, 0]] + [[rng.choice([0, 0, 1]) for _ in range(rng.randint(2, max_len))] for _ in range(n_random)]
+        for hi, shape in enumerate(shapes):
+            drv = "base" if hi % 2 == 0 else "generic"
+            style = "channel" if level == "channel" else ("generic" if drv == "generic" else "driver")
+            sessions = gen_history(rng, kind, style, shape)
+            results, _ = one_history(cx, "history", stack, kind, level, style, sessions, dict(CREDS), driver=drv)
+            if (kind, stack, level, hi) == ("telnet", "sync", "driver", 1):
+                cx.rep.sample({"history": "one Driver object: open/close x %d, login #1 re-prompted once" % len(shape),
+                               "outcomes": [r["outcome"] for r in results],
+                               "typed": [[[s, l.decode("latin-1")] for s, l, _ in r["log"]] for r in results]})
+    # rejected credentials: every login of the history gives up after exactly two submissions
+    for kind, stack, level in HIST_COMBOS[:4]:
+        sessions = gen_history(rng, kind, "channel" if level == "channel" else "driver", [0, 0])
+        one_history(cx, "history", stack, kind, level, "channel" if level == "channel" else "driver", sessions, dict(WRONG))
 
 
 def fatal_suite(cx):
@@ -813,11 +1017,20 @@ def known_suite(cx):
 
 
 def replay_login(cx, sc):
+    if "sessions" in sc:
+        sessions = [(spec_unjson(x["spec"]), x["policy"]) for x in sc["sessions"]]
+        creds = {k: bytes.fromhex(v) for k, v in sc["creds"].items()}
+        results, all_fails = one_history(cx, sc.get("suite", "replay"), sc["stack"], sc["kind"], sc["level"], sc["style"], sessions,
+                                         creds, driver=sc.get("driver", "base"), timeout_ops=sc.get("timeout_ops", 30.0))
+        i = sc.get("login_index", 0)
+        res = dict(results[i])
+        res["history"] = results
+        return res, [f for fs in all_fails for f in fs], "history"
     spec = spec_unjson(sc["spec"])
     creds = {k: bytes.fromhex(v) for k, v in sc["creds"].items()}
     return one_login(cx, sc.get("suite", "replay"), sc["stack"], sc["kind"], sc["style"], spec, sc["policy"], creds,
                      timeout_ops=sc.get("timeout_ops", 30.0), eof=sc.get("eof", "raise"), via_driver=sc.get("via_driver"),
-                     max_reads=sc.get("max_reads", 5000))
+                     max_reads=sc.get("max_reads", 5000), judge=sc.get("judge", "login"))
 
 
 # ------------------------------------------------------------------------------------------------
@@ -876,6 +1089,8 @@ def run(rep):
         hazard_suite(cx, 15 if thorough else 5)
         kick_suite(cx, 500 if thorough else 100)
         driver_suite(cx, 40 if thorough else 10)
+        open_suite(cx, 3 if thorough else 1)
+        history_suite(cx, 6 if thorough else 1, 6 if thorough else 4)
         events_suite(cx, 3000 if thorough else 500)
         dlgok_suite(cx, 150 if thorough else 30)
         broken_before = list(rep.broken)
@@ -917,6 +1132,8 @@ def run(rep):
                 hazard_suite(cx, 3)
                 kick_suite(cx, 80)
                 driver_suite(cx, 6)
+                open_suite(cx, 2)
+                history_suite(cx, 3, 5)
                 events_suite(cx, 300)
             del rep.notes[nb + 6:]
     cx.dist["oracle_failures"] = cx.violations
@@ -929,7 +1146,12 @@ def run(rep):
                 "credentials; servers re-prompting forever or 3-4 times; passphrase, password, fatal ssh messages) x chunkings (whole, "
                 "1-byte, single cuts, random multi-cuts and size lists, empty reads) x sync/asyncio x three default prompt patterns; "
                 "hazard: lines whose prefix looks like a prompt; kick: empty reads with clock readings around k*interval, connection "
-                "errors, hang-ups, timeout_ops 30/10/60/0; driver: GenericDriver/Driver.open(); events: open-loop scripts of prompt "
+                "errors, hang-ups, timeout_ops 30/10/60/0; driver: GenericDriver/Driver.open(); open: Driver / GenericDriver / "
+                "AsyncDriver / AsyncGenericDriver.open() (telnet, system-style ssh; asyncio ssh: the AsyncChannel login) x all 8 "
+                "combinations of configured/empty user name, password, passphrase x dialogues asking for each of them (login+password, "
+                "password only, ssh password, passphrase with/without 'empty skips the key') x chunkings; history: 2-4 (thorough 2-6) "
+                "logins on ONE channel / driver object (open, close, open ...), plain and with one re-prompt, valid and rejected "
+                "credentials, sync/asyncio, telnet/ssh; events: open-loop scripts of prompt "
                 "snippets; non-trivial = something was written and more than one read; distinct = (suite, dialogue, chunking, credentials)")
 
 
@@ -987,10 +1209,19 @@ def replay(path):
             cx = Ctx(rep, info)
             cx.intervals = {}
             res, fails, region = replay_login(cx, sc)
-            print("dialogue (as a correct client sees it):")
-            for st, tx in S.ideal(spec_unjson(sc["spec"]), {k: bytes.fromhex(v) for k, v in sc["creds"].items()}, sc["kind"] == "ssh")[2]:
-                print("   [%s] %r" % (st, tx))
-            print("policy:", sc["policy"], "stack:", sc["stack"], "region:", region)
+            rcreds = {k: bytes.fromhex(v) for k, v in sc["creds"].items()}
+            if "sessions" in sc:
+                print("history of %d logins on ONE %s object (%s/%s), credentials %r:" % (len(sc["sessions"]), sc["level"], sc["kind"], sc["stack"], rcreds))
+                for i, (x, r) in enumerate(zip(sc["sessions"], res["history"])):
+                    want = S.ideal(spec_unjson(x["spec"]), rcreds, sc["kind"] == "ssh")
+                    print("  login #%d: policy %s: outcome %s (a correct client: %s); typed %r" % (
+                        i + 1, x["policy"], r["outcome"], want[0], [(s, l) for s, l, _ in r["log"]]))
+            else:
+                print("dialogue (as a correct client sees it):")
+                for st, tx in S.ideal(spec_unjson(sc["spec"]), rcreds, sc["kind"] == "ssh")[2]:
+                    print("   [%s] %r" % (st, tx))
+                print("configured credentials:", rcreds, "via:", sc.get("via_driver") or "channel")
+                print("policy:", sc["policy"], "stack:", sc["stack"], "region:", region)
             print("outcome:", res["outcome"])
             print("server log:", [(s, l) for s, l, _ in res["log"]])
             print("failures:", fails)
@@ -1010,13 +1241,23 @@ MANIFEST = {
             "with a causal login server, EVERY chunking schedule: closed_loop_correct, login_completes (valid credentials: returns with "
             "exactly one answer per prompt, in order, as soon as the text up to the shell prompt is delivered), rejected_gives_up (third "
             "prompt => ScrapliAuthenticationFailed after exactly two submissions, no timeout), rejected_fatal, silent_server_blocks. "
+            "Histories of logins on ONE channel / driver object (hist_run / hist_cl, the carried counters depend on where the "
+            "counters live): history_independent (counters local to the login function => every login of every history is a run "
+            "from the initial state), history_every_login_completes (valid credentials, at most one re-prompt per login: EVERY "
+            "login of EVERY history returns with exactly its answers), history_object_scope_refuted (counters on the object: the "
+            "third accepted login raises); the scope is the generated fact C09_generated_counters_local (counters, login buffer and "
+            "return attempts are locals bound in the preamble of each of the four login functions). "
             "Full statements that are false are refuted by vm_compute witnesses and kept with their partial versions: the proviso read "
             "line-by-line (MOTD 'Last login: Tue' read byte by byte, on the patterns of the current tree) and 'rejected => "
             "AuthenticationFailed' for a server that re-prompts only once. Tie: Gen_Auth.v regenerated on every run (compiled patterns "
             "via re._parser, handler literals and the AST shape of the four loops, kick interval by running the code) with obligations "
             "C09_generated_*; the model is run by vm_compute on the same dialogues/chunkings/event scripts as the real Channel / "
-            "AsyncChannel / driver.open() and must reproduce the interleaved read/write history and the outcome class; independent "
-            "oracles on the server log and on the history (python re).",
+            "AsyncChannel / driver.open() and must reproduce the interleaved read/write history and the outcome class (histories: "
+            "CaseH evaluates hist_cl with the generated counter scope on all logins of the history); independent "
+            "oracles on the server log and on the history (python re): per credential 'written only after its own pattern, at most "
+            "twice', device-side 'each prompt state only ever receives ITS credential or an empty line' for every configuration of "
+            "set/empty credentials through the whole open() of the sync and asyncio drivers, and per login of a multi-login history "
+            "'outcome and device log are those of the same login on a fresh object'.",
     "note": "Section-variable style hypotheses (named in the theorems): empties (nothing matches the empty buffer: discharged for the "
             "patterns of the tree by C09_generated_empties), dlg_ok (no chunk-prefix of the dialogue provokes a reaction other than the "
             "one the server waits for: this is the region of the known partial-line finding), no_kick_sched (closed-loop theorems: the "
@@ -1024,6 +1265,13 @@ MANIFEST = {
             "engine as semantics of re.search (regex-conformance suite on every run); the login-server simulator and scripted "
             "transports/clock of harness/c09_sim.py (asyncio.sleep inside async_channel is replaced by a zero sleep, poll expiry is "
             "raised by the scripted read); CR stripping of Channel.read is modelled (prep), ANSI stripping is not (generators avoid ESC). "
+            "Which credential open() hands to which parameter of the login (Driver.open / AsyncDriver.open) is NOT modelled in Coq: "
+            "the whole-open scenarios with empty credentials are covered by the oracles and by the correspondence with the model "
+            "configured with the credentials the USER configured (a driver that hands over something else disagrees with it); "
+            "there is no asyncio in-channel ssh transport, those scenarios call AsyncChannel.channel_authenticate_ssh as a driver "
+            "would. The history theorems assume what C09_generated_counters_local establishes for the tree (no login state on the "
+            "object); other per-object state (ANSI partial, channel log) is outside the model, the history scenarios observe it only "
+            "through the oracle. "
             "Known findings: partial-line matches (login:/username:/password: or a shell-prompt-like prefix inside a longer line at a "
             "read boundary), server that re-prompts once then is silent.",
     "technique": "Coq proof by induction over the read-event list with a history invariant (trigger = data since the last answer) and over "
